@@ -658,7 +658,10 @@ def _check_range_all_cycles(nodes, active_nodes, j):
 
 def _check_cycles(dmap, node_id, nodes, cycle, active_nodes, mod=None):
     node, mod = nodes[node_id], {} if mod is None else mod
-    _map = dict(zip(node['function'].inputs, node['inputs']))
+    try:
+        _map = dict(zip(node['function'].inputs, node['inputs']))
+    except AttributeError:  # Not a formula (e.g., name alias): nothing to cut.
+        return ()
     pred, res = dmap.pred, ()
     check = functools.partial(_check_range_all_cycles, nodes, active_nodes)
     if not any(any(map(check, pred[k])) for k in _map.values() if k in cycle):
